@@ -1,10 +1,14 @@
 // S-harness for cocls::queue<int>, cocls::queue<void> and cocls::limited_queue<int> (C09, C10).
 // Reads cases from stdin, prints one canonical line per operation (see lean/Drivers/C09.lean, C10.lean).
-// Kinds: `lq <limit>` (C10, run_case), `q` / `vq` (C09 sequential, run_qcase), `mtq` / `mtv` (C09 threads, run_mtcase).
+// Kinds: `lq <limit>` (C10, run_case), `q` / `vq` (C09 sequential, run_qcase),
+// `sq` / `svq` (C09 scheduled interleavings, run_sqcase), `mtq` / `mtv` (C09 threads, run_mtcase).
 #include "common.h"
 #include <cocls/queue.h>
 #include <cocls/async.h>
 #include <atomic>
+#include <condition_variable>
+#include <functional>
+#include <mutex>
 #include <thread>
 #include <unistd.h>
 
@@ -229,12 +233,21 @@ struct mt_rng {
     unsigned long long s;
     explicit mt_rng(unsigned long long seed) : s(seed * 6364136223846793005ULL + 1442695040888963407ULL) {}
     unsigned next() { s = s * 6364136223846793005ULL + 1442695040888963407ULL; return (unsigned)(s >> 33); }
+    // busy-wait a random number of iterations below `max` (keeps the queue hovering around empty or full)
+    void spin(unsigned max) {
+        volatile unsigned sink = 0;
+        for (unsigned n = next() % max; n > 0; --n) sink = sink + n;
+        if (next() % 32 == 0) std::this_thread::yield();
+    }
 };
 
 template <typename T>
 std::string run_mt(int P, int C, int N, int mode, unsigned seed) {
     using Q = queue<T>;
     const long long total = (long long)P * N;
+    // pacing: 0 balanced, 1 slow producers (consumers mostly park), 2 slow consumers (items mostly queue up)
+    const unsigned pace = seed % 3;
+    const unsigned pspin = pace == 1 ? 600 * P : 16, cspin = pace == 2 ? 600 * C : 16;
     auto q = std::make_unique<Q>();
     std::vector<std::vector<int>> got(C);
     std::vector<long long> okcnt(C, 0);
@@ -267,7 +280,7 @@ std::string run_mt(int P, int C, int N, int mode, unsigned seed) {
                     ++bad[j];
                     break;
                 }
-                if (r.next() % 16 == 0) std::this_thread::yield();
+                r.spin(cspin);
             }
             exited.fetch_add(1);
         });
@@ -278,7 +291,7 @@ std::string run_mt(int P, int C, int N, int mode, unsigned seed) {
             wait_go();
             for (int k = 0; k < N; ++k) {
                 if constexpr (std::is_void_v<T>) q->push(); else q->push(p * 1000000 + k);
-                if (r.next() % 8 == 0) std::this_thread::yield();
+                r.spin(pspin);
             }
         });
     }
@@ -354,6 +367,177 @@ void run_mtcase(std::istream &in, bool is_void, const std::vector<std::string> &
     }
 }
 
+// ---------------------------------------------------------------------------------------------
+// C09 scheduled suite (`sq` / `svq`): every operation runs on its own thread; the queue is
+// instantiated with a Lock (template parameter of cocls::queue) whose unlock() parks the calling
+// operation when its lock region moved a promise out of `_awaiters` (push handing over, unblock_pop).
+// The out-of-lock resolution then happens when the input says `deliver k` - exactly the `deliver`
+// step of the Lean model - so lock regions of other operations can be interleaved in between.
+// Only one thread runs at any time (baton), so every run is deterministic.
+// ---------------------------------------------------------------------------------------------
+struct sched {
+    struct opt {
+        std::thread th;
+        int state = 0;          // 0 running, 1 parked after its lock region, 2 finished
+        bool go = false;
+        bool result = false;
+        bool is_push = false;
+    };
+    std::mutex m;
+    std::condition_variable cv;
+    std::deque<std::unique_ptr<opt>> paused;    // in the order in which they parked
+};
+static sched *g_sched = nullptr;
+static thread_local sched::opt *tl_op = nullptr;
+static std::function<std::size_t()> g_nawait;
+
+struct sched_lock {
+    std::mutex mx;
+    std::size_t before = 0;
+    void lock() { mx.lock(); before = g_nawait ? g_nawait() : 0; }
+    bool try_lock() { if (!mx.try_lock()) return false; before = g_nawait ? g_nawait() : 0; return true; }
+    void unlock() {
+        bool taken = g_nawait && g_nawait() < before;
+        mx.unlock();
+        if (taken && tl_op && g_sched) {
+            std::unique_lock lk(g_sched->m);
+            tl_op->state = 1;
+            g_sched->cv.notify_all();
+            g_sched->cv.wait(lk, [&] { return tl_op->go; });
+            tl_op->state = 0;
+        }
+    }
+};
+
+template <typename T>
+struct sq_t : queue<T, primitives::std_queue, primitives::std_queue, sched_lock> {
+    std::size_t nawait() const { return this->_awaiters.size(); }
+};
+
+template <typename T>
+void run_sqcase(std::istream &in) {
+    using Q = sq_t<T>;
+    sched sc;
+    g_sched = &sc;
+    std::unique_ptr<Q> q(new Q());
+    g_nawait = [&] { return q->nawait(); };
+    struct rec { std::unique_ptr<future<T>> f; bool reported = false; };
+    std::deque<rec> pops;
+    std::vector<std::string> evs;
+    std::string line;
+    auto poll = [&] {
+        for (std::size_t i = 0; i < pops.size(); ++i)
+            if (!pops[i].reported && pops[i].f && pops[i].f->ready()) {
+                pops[i].reported = true;
+                evs.push_back("pop#" + std::to_string(i) + "=" + vh::outcome(*pops[i].f));
+            }
+    };
+    // run fn on a fresh thread until it finishes or parks; returns the op (parked ops are kept in sc.paused)
+    struct opres { int state; bool result; };
+    auto run_op = [&](bool is_push, std::function<bool()> fn) -> opres {
+        auto o = std::make_unique<sched::opt>();
+        sched::opt *op = o.get();
+        op->is_push = is_push;
+        op->th = std::thread([&sc, op, fn] {
+            tl_op = op;
+            bool r = fn();
+            std::unique_lock lk(sc.m);
+            op->result = r;
+            op->state = 2;
+            sc.cv.notify_all();
+        });
+        std::unique_lock lk(sc.m);
+        sc.cv.wait(lk, [&] { return op->state != 0; });
+        if (op->state == 2) {
+            lk.unlock();
+            op->th.join();
+            return opres{2, op->result};
+        }
+        sc.paused.push_back(std::move(o));
+        return opres{1, false};
+    };
+    auto resume_op = [&](std::size_t k, std::ostringstream &head) {
+        std::unique_ptr<sched::opt> o = std::move(sc.paused[k]);
+        sc.paused.erase(sc.paused.begin() + (std::ptrdiff_t)k);
+        {
+            std::unique_lock lk(sc.m);
+            o->go = true;
+            sc.cv.notify_all();
+            sc.cv.wait(lk, [&] { return o->state == 2; });
+        }
+        o->th.join();
+        if (o->is_push) head << "deliver push woke=" << o->result;
+        else head << "deliver upop " << o->result;
+    };
+    auto shutdown = [&](const char *what) {
+        std::ostringstream dummy;
+        while (!sc.paused.empty()) resume_op(0, dummy);
+        g_nawait = nullptr;
+        q.reset();
+        poll();
+        vh::emit(what, evs);
+    };
+    while (std::getline(in, line)) {
+        auto w = vh::split(line);
+        if (w.empty()) continue;
+        std::ostringstream head;
+        if (w[0] == "end") {
+            shutdown("end");
+            g_sched = nullptr;
+            return;
+        } else if (w[0] == "destroy") {
+            shutdown("destroy");
+            while (std::getline(in, line)) {
+                auto w2 = vh::split(line);
+                if (!w2.empty() && w2[0] == "end") break;
+            }
+            vh::emit("end", evs);
+            g_sched = nullptr;
+            return;
+        } else if (w[0] == "push") {
+            int v = w.size() > 1 ? atoi(w[1].c_str()) : 0;
+            opres o = run_op(true, [&q, v]() -> bool {
+                (void)v;
+                if constexpr (std::is_void_v<T>) return q->push(); else return q->push(v);
+            });
+            if (o.state == 2) head << "push woke=" << o.result; else head << "push paused";
+        } else if (w[0] == "upop" && w.size() > 1) {
+            int code = atoi(w[1].c_str());
+            opres o = run_op(false, [&q, code]() -> bool {
+                return q->unblock_pop(std::make_exception_ptr(test_exc(code)));
+            });
+            if (o.state == 2) head << "upop " << o.result; else head << "upop paused";
+        } else if (w[0] == "pop") {
+            std::size_t id = pops.size();
+            pops.emplace_back();
+            rec *r = &pops[id];
+            run_op(false, [&q, r]() -> bool {
+                r->f.reset(new future<T>([&] { return q->pop(); }));
+                return true;
+            });
+            std::string st = vh::outcome(*pops[id].f);
+            if (st != "pending") pops[id].reported = true;
+            head << "pop#" << id << " " << st;
+        } else if (w[0] == "deliver" && w.size() > 1) {
+            std::size_t k = (std::size_t)atoi(w[1].c_str());
+            if (k < sc.paused.size()) resume_op(k, head); else head << "deliver none";
+        } else if (w[0] == "size") {
+            std::size_t n = 0;
+            run_op(false, [&q, &n]() -> bool { n = q->size(); return true; });
+            head << "size " << n;
+        } else if (w[0] == "empty") {
+            bool e = false;
+            run_op(false, [&q, &e]() -> bool { e = q->empty(); return true; });
+            head << "empty " << e;
+        } else {
+            head << "bad-op";
+        }
+        poll();
+        vh::emit(head.str(), evs);
+    }
+    g_sched = nullptr;
+}
+
 int main() {
     std::string line;
     while (std::getline(std::cin, line)) {
@@ -363,6 +547,8 @@ int main() {
         const std::string &kind = w[2];
         if (kind == "q") run_qcase<queue<int>, int>(std::cin);
         else if (kind == "vq") run_qcase<queue<void>, void>(std::cin);
+        else if (kind == "sq") run_sqcase<int>(std::cin);
+        else if (kind == "svq") run_sqcase<void>(std::cin);
         else if (kind == "mtq") run_mtcase(std::cin, false, w);
         else if (kind == "mtv") run_mtcase(std::cin, true, w);
         else if (kind == "lq") run_case<lq_t, int, true>(std::cin, (std::size_t)atoi(w[3].c_str()));
